@@ -4,6 +4,7 @@ package routing
 // is a single call or field read; no logic.
 
 import (
+	"github.com/dtn7/dtn7-go/pkg/agent"
 	"github.com/dtn7/dtn7-go/pkg/bpv7"
 	"github.com/dtn7/dtn7-go/pkg/cla"
 	"github.com/dtn7/dtn7-go/pkg/storage"
@@ -17,6 +18,12 @@ func (c *Core) VerifManager() *cla.Manager { return c.claManager }
 func (c *Core) VerifAlgorithm() Algorithm  { return c.routing }
 func (c *Core) VerifRetryTick()            { c.checkPendingBundles() }
 func (c *Core) VerifIdKeeper() *IdKeeper   { return &c.idKeeper }
+
+// VerifAgentFlush pushes a message addressed to nobody through the agent multiplexer; when it has been taken,
+// every bundle handed to the multiplexer before has been passed on to the registered agents.
+func (c *Core) VerifAgentFlush() {
+	c.agentManager.mux.MessageReceiver() <- agent.SyscallRequestMessage{Sender: bpv7.DtnNone(), Request: "verif-flush"}
+}
 
 // VerifCloseAgents shuts the agent manager down (Core.Close leaves it running).
 func (c *Core) VerifCloseAgents() { _ = c.agentManager.Close() }
